@@ -19,6 +19,19 @@ CHECKS = {
               "Bounded: S entries -1..1 exhaustively (thorough), random entries -2..3 with |det|<=8; unit cells "
               "with 1-3 atoms on 1/4 and 1/6 grids; triclinic real lattices."),
         design="5/C04"),
+    "C05": dict(
+        text=("ShortestVectors.tla defines the minimum-image set of a separation by scanning a box whose sufficiency "
+              "is itself an invariant (Cauchy-Schwarz bound with the reciprocal basis, exact integers), and models "
+              "the implementation's 65-point window on Niggli-reduced forms. TLC checks (a) Window65Complete - the "
+              "statement the source says has no proof - over all Niggli-reduced integer Gram forms with bounded "
+              "entries and all separations on a grid, and (b) for every atom pair of real get_smallest_vectors() "
+              "runs on sheared/needle/plate/high-symmetry lattices that the recorded dense and sparse tables are "
+              "exactly that set (none longer, none missing, no duplicate, multiplicity = count, running addresses, "
+              "converters)."),
+        note=("Trusted: TLC; projection of real vectors to integers over D (residual checked); spglib only as the "
+              "code's own dependency. Bounded: reduced forms with diagonal <= 3 (quick) / 5 (thorough), grid 1/2 "
+              "or 1/4; impl lattices U G U^T with |U| <= 6; 32-bit overflow guarded by the generator."),
+        design="5/C05"),
 }
 
 NOT_BUILT = "check under construction in this round; not yet claimed"
